@@ -152,6 +152,14 @@ def step (st : St) (toks : List String) : St × String :=
         Bytes.render (Enc.indexKey c ix (comps ++ [(.str did, false)])))
       (st, s!"{entries.length} {",".intercalate (sortStr entries)}")
     | _, _ => (st, "bad-op")
+  | ["g", a, b] =>
+    match a.toInt?, b.toInt? with
+    | some x, some y =>
+      let rows := (groupedPair st.docs x y).map (fun r =>
+        let key := match r.1 with | .bool true => "b1" | .bool false => "b0" | _ => "n"
+        s!"{key}:{r.2.1}:{r.2.2.1}:{r.2.2.2.1}:{r.2.2.2.2.1}:{r.2.2.2.2.2}")
+      (st, ",".intercalate (sortStr rows))
+    | _, _ => (st, "bad-op")
   | ["q", filt, order, limit, offset, sel] =>
     match parseF 12 filt, limit.toNat?, offset.toNat?, parseSel sel with
     | some f, some l, some o, some s =>
